@@ -2261,7 +2261,7 @@ class Transport(threading.Thread, ClosingContextManager):
                     if ptype in self._handler_table:
                         error_msg = self._ensure_authed(ptype, m)
                         if error_msg:
-                            self._send_message(error_msg)
+                            self._send_user_message(error_msg)
                         else:
                             self._handler_table[ptype](m)
                     elif ptype in self._channel_handler_table:
@@ -3008,7 +3008,7 @@ class Transport(threading.Thread, ClosingContextManager):
                 msg.add(*extra)
             else:
                 msg.add_byte(cMSG_REQUEST_FAILURE)
-            self._send_message(msg)
+            self._send_user_message(msg)
 
     def _parse_request_success(self, m):
         self._log(DEBUG, "Global request successful.")
@@ -3155,7 +3155,7 @@ class Transport(threading.Thread, ClosingContextManager):
             msg.add_int(reason)
             msg.add_string("")
             msg.add_string("en")
-            self._send_message(msg)
+            self._send_user_message(msg)
             return
 
         chan = Channel(my_chanid)
@@ -3178,7 +3178,7 @@ class Transport(threading.Thread, ClosingContextManager):
         m.add_int(my_chanid)
         m.add_int(self.default_window_size)
         m.add_int(self.default_max_packet_size)
-        self._send_message(m)
+        self._send_user_message(m)
         self._log(
             DEBUG, "Secsh channel {:d} ({}) opened.".format(my_chanid, kind)
         )
